@@ -198,7 +198,7 @@ func c25SubVectors(n, nt int, rich bool) [][]uint8 {
 }
 
 func c25Blocks(thorough bool) ([]c25Block, string) {
-	maxN, richN, total, totalAtMax := 3, 2, 4, 4
+	maxN, richN, total, totalAtMax := 3, 3, 4, 4
 	if thorough {
 		maxN, richN, total, totalAtMax = 4, 3, 6, 4
 	}
@@ -215,6 +215,9 @@ func c25Blocks(thorough bool) ([]c25Block, string) {
 					// with and without stale entries (deleted topic ID, partition beyond the end)
 					for _, ghost := range []bool{false, true} {
 						out = append(out, c25Block{"uniform", away, balenum.Block{Sweep: "kfake-uniform", N: n, Parts: parts, Subs: subs, Ghost: ghost, Prior: balenum.PriorSingle, Orders: 1}})
+					}
+					if os.Getenv("C25_KFAKE_CONFLICT") != "" {
+						out = append(out, c25Block{"uniform", away, balenum.Block{Sweep: "kfake-uniform-conflict", N: n, Parts: parts, Subs: subs, Prior: balenum.PriorConflict, Orders: 1}})
 					}
 					// range recomputes from scratch: previous target is irrelevant but
 					// must be fully replaced; member order depends on static instance IDs
@@ -258,13 +261,13 @@ func TestVerifC25(t *testing.T) {
 	if out == "" {
 		t.Skip("C25_KFAKE_SUMMARY not set")
 	}
-	balenum.TuneGC(256 << 20)
 	if pp := os.Getenv("C25_PPROF"); pp != "" {
 		f, _ := os.Create(pp)
 		pprof.StartCPUProfile(f)
 	}
 	thorough := os.Getenv("VERIF_TIER") == "thorough"
 	blocks, bound := c25Blocks(thorough)
+	balenum.TuneGC(256 << 20)
 	workers := 16
 	fmt.Sscan(os.Getenv("VERIF_WORKERS"), &workers)
 
